@@ -456,3 +456,8 @@ from contracts.parse_models import noop_cm  # noqa: E402
 UNITS.append(Unit("C01", "jsonargparse._core:ArgumentParser._dump_delete_default_entries", dde_setup, dde_post, dde_raises, max_paths=20000,
                   trusted=["nested mappings are completed key by key from the defaults when re-read (groups, init_args); Dict-typed *values* are not - that difference is the known finding c01-skip_default-recurses-into-dict-values, outside this unit",
                            "the recursive call by contract", "get_class_parser(class_path).get_defaults() are the defaults of that class"]))
+
+from contracts.check_type import serialize_unit  # noqa: E402
+UNITS.append(serialize_unit("C01"))
+from contracts.share import shared  # noqa: E402
+UNITS += shared("C01", "contracts.c03", "_ActionPrintConfig.print_config_if_requested")
